@@ -22,6 +22,13 @@ type Event struct {
 
 	Vacant []int // transition: share indices of the new epoch that no member holds
 
+	Given *Epoch `json:"-"` // transition: the new epoch, already dealt (system engine: the same for every node)
+
+	// part, raw mode (system engine): these very bytes are delivered
+	Raw     bool
+	RawPrev []byte `json:"-"`
+	RawSig  []byte `json:"-"`
+
 	Sync string // syncmode: "off" | "honest"
 	Note string
 }
@@ -31,13 +38,13 @@ type Obs struct {
 	SigBytes   []byte `json:"-"` // part: the partial signature that was delivered
 	PrevBytes  []byte `json:"-"`
 	HeadBefore uint64 // stored head before the event
-	Rejected bool // part: ProcessPartialBeacon returned an error
-	Valid    bool // part: oracle bit (independent VerifyPartial against the epoch polynomial the node currently uses)
-	Puts     []PutObs
-	Emits    []EmitObs
-	Syncs    []SyncCall
-	Now      int64
-	Head     uint64
+	Rejected   bool   // part: ProcessPartialBeacon returned an error
+	Valid      bool   // part: oracle bit (independent VerifyPartial against the epoch polynomial the node currently uses)
+	Puts       []PutObs
+	Emits      []EmitObs
+	Syncs      []SyncCall
+	Now        int64
+	Head       uint64
 }
 
 // PutObs is a projected Put on the base store.
@@ -58,16 +65,16 @@ type EmitObs struct {
 }
 
 type runner struct {
-	emitMult map[int]int // multiplicity of emission i already reported
-	w        *World
-	t        *ids
-	now0     int64
-	ticking  bool
-	nPuts    int
-	nEmits   int
-	nSyncs   int
-	settleMs int
-	stopped  bool
+	emitMult  map[int]int // multiplicity of emission i already reported
+	w         *World
+	t         *ids
+	now0      int64
+	ticking   bool
+	nPuts     int
+	nEmits    int
+	nSyncs    int
+	settleMs  int
+	stopped   bool
 	tickRound uint64 // round of the last tick delivered to the run loop
 
 	lastPrev, lastSig []byte
@@ -211,9 +218,12 @@ func (r *runner) Do(ev Event) Obs {
 	case "transition":
 		// reshare: same secret, new polynomial; ev.Round = first round of the new group
 		tt := w.Genesis + int64(ev.Round-1)*w.Period
-		ep, err := w.newEpoch(ev.From, ev.Claim, tt, ev.Vacant)
-		if err != nil {
-			panic(err)
+		ep := ev.Given
+		if ep == nil {
+			var err error
+			if ep, err = w.newEpoch(ev.From, ev.Claim, tt, ev.Vacant); err != nil {
+				panic(err)
+			}
 		}
 		w.Epochs = append(w.Epochs, ep)
 		r.lastTarget = int64(ev.Round) - 1
@@ -237,15 +247,26 @@ func (r *runner) Do(ev Event) Obs {
 	case "part":
 		prev := r.prevBytes(ev.Prev, ev.Round)
 		msgPrev := prev
-		sig := w.Partial(ev.Ep, ev.From, ev.Round, msgPrev)
-		if ev.Mut == "wrongmsg" {
+		var sig []byte
+		if ev.Raw {
+			prev, sig = ev.RawPrev, ev.RawSig
+		} else {
+			sig = w.Partial(ev.Ep, ev.From, ev.Round, msgPrev)
+		}
+		if ev.Raw {
+			// delivered as is
+		} else if ev.Mut == "wrongmsg" {
 			sig = w.Partial(ev.Ep, ev.From, ev.Round+1000, msgPrev)
 		}
-		if ev.Claim != ev.From && len(sig) >= 2 {
+		if !ev.Raw && ev.Claim != ev.From && len(sig) >= 2 {
 			sig = append([]byte{}, sig...)
 			sig[0], sig[1] = byte(ev.Claim>>8), byte(ev.Claim)
 		}
-		switch ev.Mut {
+		mut := ev.Mut
+		if ev.Raw {
+			mut = ""
+		}
+		switch mut {
 		case "flip":
 			sig = append([]byte{}, sig...)
 			sig[len(sig)-1] ^= 1
